@@ -72,10 +72,10 @@ def Node.subSpec (ctx : ImplContext) (nr : Bool) (lvl : FieldCtx) (hint : TypeHi
     let g ← structGhostLines ctx (some (cp, crc, d))
     let init ← wrapInit ctx cdata.typeHint nr (lines ++ g ++ updateToks ctx)
     match nr, hint with
-    | true, .struct | true, .unspecified => return childName ++ [colon] ++ cdata.ty ++ init ++ [comma]
-    | true, .tuple => return cdata.ty ++ init ++ [comma]
-    | false, .tuple | false, .unspecified => return cdata.ty ++ init ++ [comma]
-    | false, .struct => return childName ++ [colon] ++ cdata.ty ++ init ++ [comma]
+    | true, .struct | true, .unspecified => return childName ++ [colon] ++ exprPath cdata.ty ++ init ++ [comma]
+    | true, .tuple => return exprPath cdata.ty ++ init ++ [comma]
+    | false, .tuple | false, .unspecified => return exprPath cdata.ty ++ init ++ [comma]
+    | false, .struct => return childName ++ [colon] ++ exprPath cdata.ty ++ init ++ [comma]
     | _, .unit => panicAt "expand.rs:render_child:unreachable(15)"
   | none => .error (.unsupported "ill-formed tree")
 /-- the body of one level: one fragment per node, in order; the running position counts contributing nodes -/
